@@ -22,6 +22,10 @@ type Case struct {
 	// BlockedDial: the (single) target is down at creation and its dial blocks
 	// while a no-send-waiting one-way call is made.
 	BlockedDial bool `json:"blocked_dial,omitempty"`
+	// CutAfter (one-way calls): once every message has been delivered, the connections to the servers
+	// break (the servers keep listening); the fence then goes over new connections. A message that
+	// was delivered must not be delivered again.
+	CutAfter bool `json:"cut_after,omitempty"`
 	// Interfere (second case shape): K one-way messages with live contexts are sent to a node
 	// whose handler is blocked; then other calls whose context has ended are made on the same
 	// node; all K messages must still be delivered exactly once.
@@ -120,6 +124,9 @@ func gen(t *rapid.T) Case {
 			// grpc as the connect deadline): a call that waited for the connection would not return
 			c.BlockedDial = true
 			c.Mgr.BackoffMs = 30000
+		}
+		if !c.BlockedDial && rapid.IntRange(0, 3).Draw(t, "cutAfter") == 0 {
+			c.CutAfter = true
 		}
 	} else {
 		// threshold = number of targets (success by the non-skipped nodes alone) or one more (Incomplete accounting)
@@ -419,6 +426,13 @@ func run(c Case) vt.Verdict {
 		}
 		return vt.Verdict{OK: false, Key: k("not-delivered"), History: cl.Log.Snapshot(),
 			Msg: fmt.Sprintf("%s: servers %v never received the message within 2x%v (reachable, context live); library goroutines that stayed put: %s", kind, missing, scen.B, dsig)}
+	}
+	if c.CutAfter && oneWay {
+		classes = append(classes, "connections-cut-after-delivery")
+		for s := 0; s < c.N; s++ {
+			cl.Cut(s)
+		}
+		time.Sleep(2 * time.Millisecond)
 	}
 	// let the handlers answer; two-way calls must complete by the answers of the non-skipped nodes alone
 	cl.OpenAll()
